@@ -60,6 +60,8 @@ message Cfg {
   optional Cfg src_child = 31 [retention = RETENTION_SOURCE];
   repeated string src_rs = 32 [retention = RETENTION_SOURCE];
   optional int32 run_i = 33 [retention = RETENTION_RUNTIME];
+  optional Cfg file_only = 34 [targets = TARGET_TYPE_FILE];
+  optional int32 msg_only = 35 [targets = TARGET_TYPE_MESSAGE];
   extensions 100 to 199;
 }
 
@@ -68,6 +70,7 @@ extend Cfg {
   optional Cfg cfg_ext_msg = 101;
   repeated string cfg_ext_rep = 102;
   optional string cfg_ext_src = 103 [retention = RETENTION_SOURCE];
+  optional Cfg cfg_ext_file_only = 104 [targets = TARGET_TYPE_FILE];
 }
 
 extend google.protobuf.FileOptions { optional Cfg file_cfg = 50001; optional int32 file_i = 50002; repeated string file_rs = 50003; optional Color file_c = 50004; repeated Cfg file_rcfg = 50005; optional int32 file_src = 50006 [retention = RETENTION_SOURCE]; }
@@ -166,7 +169,11 @@ func genFloat(bits32 bool) scalarGen {
 		p := []struct {
 			s string
 			v float64
-		}{{"1.5", 1.5}, {"0", 0}, {"-2.25", -2.25}, {"1e3", 1000}, {"3", 3}, {"-7", -7}, {"inf", math.Inf(1)}, {"-inf", math.Inf(-1)}, {"nan", math.NaN()}, {"1e-3", 0.001}, {".5", 0.5}, {"5.", 5}, {"1e40", 1e40}, {"18446744073709551616", 18446744073709551616}, {"0x10", 16}}
+		}{{"1.5", 1.5}, {"0", 0}, {"-2.25", -2.25}, {"1e3", 1000}, {"3", 3}, {"-7", -7}, {"inf", math.Inf(1)}, {"-inf", math.Inf(-1)}, {"nan", math.NaN()}, {"1e-3", 0.001}, {".5", 0.5}, {"5.", 5}, {"1e40", 1e40}, {"18446744073709551616", 18446744073709551616},
+			// float32 boundaries: literals within half a unit in the last place above the largest float still are that float
+			{"3.4028235e38", 3.4028235e38}, {"3.40282347e38", 3.40282347e38}, {"-3.4028235e38", -3.4028235e38}, {"3.4028234e38", 3.4028234e38},
+			{"1.17549435e-38", 1.17549435e-38}, {"1e-46", 1e-46}, {"16777217", 16777217}, {"1.7976931348623157e308", 1.7976931348623157e308},
+			{"0x10", 16}}
 		if prototextSafe {
 			p = p[:len(p)-1]
 		}
